@@ -108,9 +108,10 @@ class Workdir(object):
         os.makedirs(self.dir, exist_ok=True)
         self.n = 0
 
-    def write(self, data, tag):
+    def write(self, data, tag, reuse=False):
+        """reuse: the same path every time (a user rebuilding a binary in place between two loads)"""
         self.n += 1
-        path = os.path.join(self.dir, "%s-%d.aplx" % (tag, self.n))
+        path = os.path.join(self.dir, "%s-%s.aplx" % (tag, "rebuilt-in-place" if reuse else self.n))
         with open(path, "wb") as f:
             f.write(bytes(bytearray(data)))
         return path
@@ -120,7 +121,7 @@ class Workdir(object):
 def one_call(sim, mc, wd, sc):
     """one call of load_application, recorded: the machine's state before, every command it executed, its state
     after, the outcome.  Returns the trace and the number of fills the call started."""
-    names = [wd.write(data, "bin%d" % (i + 1)) for i, (data, _) in enumerate(sc["bins"])]
+    names = [wd.write(data, "bin%d" % (i + 1), sc.get("reuse", False)) for i, (data, _) in enumerate(sc["bins"])]
     init = snapshot(sim)
     base = struct.unpack("<I", sim.chips[sim.root].read(sim.sv_addr("sdram_sys"), 4))[0]
     logpos = len(sim.log)
@@ -179,7 +180,8 @@ def run_scenario(wd, sc):
         earlier = []
         for (data, targets) in sc.get("pre", ()):
             t, _ = one_call(sim, mc, wd, dict(app=sc["app"], wait=1, ntries=2, usecount=0, style="two",
-                                              bins=[(data, targets)], miss=[], label="earlier load"))
+                                              bins=[(data, targets)], miss=[], label="earlier load",
+                                              reuse=sc.get("reuse", False)))
             earlier.append(t)
         if "nn_id" in sc:
             mc._nn_id = sc["nn_id"]                 # a controller that has already done this many fills
@@ -251,7 +253,7 @@ def small_scope(chk, rng, wd, sink):
                 pre.append((other, {(1, 0): {5}, (0, 0): {4}}))
             sc = dict(w=2, h=1, buf=16, app=30, wait=w, ntries=ntries, usecount=u, style="two",
                       bins=[(data, {(0, 0): {1, 2}, (1, 0): {3, 4}})], pre=pre, nn_id=0,
-                      label="small with earlier loads")
+                      label="small with earlier loads", reuse=bool(ntries))
             explore_schedules(wd, sc, [(0, 0), (1, 0)], ntries + 1, sink)
 
 
@@ -318,7 +320,8 @@ def random_scenario(rng):
     miss = [[xy for xy in chips if rng.random() < pm] for _ in range((ntries + 1) * nb)]
     return dict(w=w, h=h, ncores=ncores, buf=buf, app=rng.choice((16, 30, 66, 255)), wait=rng.random() < 0.5,
                 ntries=ntries, usecount=usecount, style="two" if nb == 1 and rng.random() < 0.5 else "map",
-                bins=bins, miss=miss, pre=pre, nn_id=rng.choice((0, 0, 1, 60, 124, 125, 126)), label="random")
+                bins=bins, miss=miss, pre=pre, nn_id=rng.choice((0, 0, 1, 60, 124, 125, 126)), label="random",
+                reuse=rng.random() < 0.3)       # the binaries' files are rewritten in place between the loads
 
 
 def describe(tr):
